@@ -1,6 +1,6 @@
 (* C01/Props.v — property-level theorems of C01 over the Cluster model (coq/theories/Cluster/Model.v). *)
 From Coq Require Import List ZArith Bool Lia.
-From BLB Require Import Gen.Consts Cluster.Model Cluster.Proofs.
+From BLB Require Import Gen.Consts C01.Model Cluster.Proofs.
 Import ListNotations.
 Open Scope Z_scope.
 
